@@ -96,6 +96,8 @@ func describeScenario(sc Scenario) map[string]interface{} {
 			steps = append(steps, s.Conn+": "+s.Cmd.Describe())
 		case "advance":
 			steps = append(steps, fmt.Sprintf("advance %ds", s.Secs))
+		case "fault":
+			steps = append(steps, "fault "+s.Fault.String())
 		default:
 			steps = append(steps, fmt.Sprintf("%s %s %s", s.Kind, s.Tier, s.Key))
 		}
